@@ -3,7 +3,7 @@ import ast
 
 from ..core import AnalysisError, u, walk_local, enclosing_stmt
 from ..lib import (construct, std_facts, facts_at, def_of, facts_imply,
-                   returns_of, in_subtree)
+                   returns_of, in_subtree, expand_expr)
 from ..resolve import store_accesses
 from .common import allowed_stores
 
@@ -71,9 +71,12 @@ def run(ctx):
     if keyexpr is not None:
       roots = [n.id for n in ast.walk(keyexpr) if isinstance(n, ast.Name)]
       if len(roots) == 1:
-        d = def_of(fs, roots[0])
-        ok = d is not None and d.startswith('ParsedBindingKey.parse(') and ('call', PARSE) in fs
-        why = 'key `%s` comes from `%s`' % (u(keyexpr), d)
+        ex = expand_expr(fs, keyexpr)
+        base = ex
+        while isinstance(base, (ast.Attribute, ast.Subscript)):
+          base = base.value
+        ok = isinstance(base, ast.Call) and u(base.func) == 'ParsedBindingKey.parse' and ('call', PARSE) in fs
+        why = 'key `%s` comes from `%s`' % (u(keyexpr), u(ex))
     ctx.check(ok, 'C11.validate-first', con,
               'write to %s uses a key produced by ParsedBindingKey.parse, which has completed on every path to the write' % a.store,
               'write to %s is not dominated by key validation (%s): a rejected binding could leave the store modified, '
@@ -87,12 +90,15 @@ def run(ctx):
     a = n.ast
     if n.kind == 'stmt' and isinstance(a, ast.Assign) and isinstance(a.targets[0], ast.Subscript):
       base = a.targets[0].value
-      if isinstance(base, ast.Name):
-        d = def_of(facts[n.id], base.id)
+      d = def_of(facts[n.id], base.id) if isinstance(base, ast.Name) else (u(base) if isinstance(base, ast.Call) else None)
+      if d is not None:
         if d and ('_CONFIG.setdefault' in d or '_CONFIG_PROVENANCE.setdefault' in d):
           alias_writes += 1
-          keyroot = [x.id for x in ast.walk(a.targets[0].slice) if isinstance(x, ast.Name)]
-          dd = def_of(facts[n.id], keyroot[0]) if len(keyroot) == 1 else None
+          ex = expand_expr(facts[n.id], a.targets[0].slice)
+          kb = ex
+          while isinstance(kb, (ast.Attribute, ast.Subscript)):
+            kb = kb.value
+          dd = u(kb) if isinstance(kb, ast.Call) else None
           ctx.check(dd is not None and dd.startswith('ParsedBindingKey.parse('), 'C11.validate-first', construct(bp),
                     'entry write `%s` uses the validated parameter name' % u(a.targets[0]),
                     'entry write `%s` uses a parameter name that did not come from the validated key' % u(a.targets[0]),
@@ -217,8 +223,15 @@ def run(ctx):
               'registration reaches the write of %s without %s' % (a.store, 'rejecting both lists' if not both else 'validating both lists against the signature'),
               mk.loc(a.node), instance=a.store)
   vp = ctx.func('config._validate_parameters')
-  raising = any(isinstance(n, ast.If) and 'not _might_have_parameter(' in u(n.test) and isinstance(n.body[-1], ast.Raise)
-                for n in walk_local(vp.node))
+  g_vp, f_vp = std_facts(prog, vp)
+  raising = False
+  for n in g_vp.live_nodes():
+    if n.kind == 'raise_stmt' and n.loops and isinstance(n.loops[-1], ast.For):
+      lp = n.loops[-1]
+      it = u(lp.iter).replace(' ', '')
+      covers = it in (vp.params[1], '%sor[]' % vp.params[1], '%sor()' % vp.params[1])
+      unknown = ('c', '_might_have_parameter(%s, %s)' % (vp.params[0], u(lp.target)), False) in f_vp[n.id]
+      raising = raising or (covers and unknown)
   ctx.check(raising, 'C11.lists', construct(vp), 'an unknown name in a list raises',
             '_validate_parameters no longer raises for a name the signature cannot accept', vp.loc())
 
